@@ -38,7 +38,7 @@ PURE_LIBC = {
     '__builtin_huge_val', '__builtin_strcmp', '__builtin_strcpy', '__builtin_object_size',
     '__builtin___memcpy_chk', '__builtin___strcpy_chk', '__builtin___sprintf_chk', '__isoc99_sscanf',
 }
-LOCALE_READ = {'localeconv'}
+LOCALE_READ = {'localeconv', '__ctype_b_loc', '__ctype_tolower_loc', '__ctype_toupper_loc'}   # glibc's expansion of <ctype.h>: thread-local locale tables
 DEFAULT_ALLOC = {'malloc', 'free', 'realloc'}
 
 
